@@ -23,7 +23,7 @@ UNM = [
     (4, '{"t\\\\?b":5}', 'tnu\\"/', (0, 2)),
     (4, '{"??":5}', "-_d", (0, 1)),
     (4, '{"":5}', "", (0, 1, 3)),
-    (5, '{"??":5}', "abABxyXY_-z", (0, 1, 2, 3)),
+    (5, '{"??":5}', "abABxyXY_-zZgG", (0, 1, 2, 3)),
     (5, '{"???":5}', "abAB_-xy", (0, 1)),
     (6, '{"?":5}', "", (0, 1, 2, 3)),
     (6, '{"b?c":5}', "_-bBx", (0, 1, 2)),
@@ -47,6 +47,7 @@ DUP = [
     (8, '{"F6?":1,"F6?":2}', DIG, (0,)),
     (8, '{"?63":1,"?6?":2}', "Ff3456", (1,)),
     (8, '{"G?":1,"F0?":2}', "0123", (0,)),
+    (8, '{"G?":1,"F6?":2}', "0123456", (0,)),
     (6, '{"?":1,"?":2}', "abk", (0, 2)),
     (6, '{"b?c":1,"?c":2}', "_bBC", (0,)),
     (4, '{"g":"1","?":"2"}', "gGh", (0, 1)),
